@@ -1144,10 +1144,11 @@ int vorbis_encode_ctl(vorbis_info *vi,int number,void *arg){
           if(ai->bitrate_limit_reservoir_bits < 0)
             return OV_EINVAL;
 
-          if(ai->bitrate_limit_reservoir_bias < 0.)
+          /* written so that NaN is rejected as well */
+          if(!(ai->bitrate_limit_reservoir_bias >= 0.))
             return OV_EINVAL;
 
-          if(ai->bitrate_limit_reservoir_bias > 1.)
+          if(!(ai->bitrate_limit_reservoir_bias <= 1.))
             return OV_EINVAL;
 
           hi->managed=ai->management_active;
